@@ -109,6 +109,14 @@ def run(facts, rep, tier, ctx):
     for ob_ in scr2.obligations:
         n += 1
         rep.ob("R18.1", ob_["fn"], ob_["key"].split("|")[2], ob_["ok"], ob_["detail"], ob_["loc"])
+    scr3 = _R("c3")
+    _PR(facts, _W(facts, False), D).table_p(scr3, "P")
+    for ob_ in scr3.obligations:
+        d3 = ob_["key"].split("|")[2]
+        # (and the root is refused like every other directory: by the backend, as not-supported — not by the path type)
+        if d3.startswith("remove_dir_all") or "is answered because of the filesystem's state" in d3:
+            n += 1
+            rep.ob("R18.1", ob_["fn"], d3, ob_["ok"], ob_["detail"], ob_["loc"])
     rep.floor("mutator obligations", n, 11)
     # ---- R18.2
     adt = facts.adts.get("impls::embedded::EmbeddedFS")
